@@ -626,3 +626,65 @@ def d_tag_literals(sk: int, k1: int, k2: int) -> bool:
         return True
 
     return untraced(run)
+
+
+# --------------------------------------------------------------------------------------
+# D-C02-source: template SOURCE TEXT as a solver variable (all patterns replaced by validated stand-ins)
+# --------------------------------------------------------------------------------------
+from . import pymatch  # noqa: E402
+
+AllPyLexer = pymatch.install_all(Lexer)
+
+
+class _PyEnv(ShopifyEnvironment):
+    lexer_class = AllPyLexer
+
+
+PY_ENV = _PyEnv(loader=__import__("liquid2").DictLoader({"p": "[{{ v }}]"}))
+SRC_ALPHA = "{}%#a'\"|.[- \n1"
+SRC_ALPHA_T = "{}%#a'|.[ "
+PREFIXES = [
+    "", "{{", "{{ a", "{{ a |", "{{ 'a", "{% if a", "{%liquid\n", "{%liquid\n#", "{% comment %}", "{#", "{% raw %}", "{% #", "{{ a[",
+    "{% for i in (1", "{{ \"${", "a{%-", "{%assign v =", "{%liquid\nif a\n", "{% case a %}{% when", "{{ a.", "{% render 'p'", "{{ 1.", "{##",
+]
+_STANDIN_VALIDATION = (
+    pymatch.validate(Lexer, "a1.'\"[]|:}-( %e+,", 3)
+    or pymatch.validate_markup(Lexer, "{}%#-a \n", 4)
+    or pymatch.validate_markup(Lexer, ["{%", "%}", "raw", "endraw", "comment", " ", "-", "a", "#", "{#", "#}", "{{", "\n"], 3)
+    or pymatch.validate_rest(Lexer, "a#%}-\n\r A_1", 3)
+    or pymatch.validate_rest(Lexer, ["{%", "%}", "comment", "endcomment", "raw", "endraw", " ", "-", "a", "\n", "#"], 3)
+)
+
+
+def source_outcome(src: str):
+    try:
+        t = PY_ENV.from_string(src)
+        t.render(a=[1, 2], v="x")
+    except LiquidError as e:
+        if not _render_error(e):
+            return False
+        tok = e.token
+        if tok is not None and tok.start >= 0 and tok.source == src:
+            return 0 <= tok.start < max(len(src), 1)
+        return True
+    except Exception:  # noqa: BLE001
+        return False
+    return True
+
+
+@cond(
+    pre=["len(suffix) <= N", "in_alpha(suffix, ALPHA)"],
+    consts={"N": 2, "ALPHA": SRC_ALPHA},
+    consts_thorough={"N": 3, "ALPHA": SRC_ALPHA_T},
+    timeout=300,
+    timeout_thorough=2400,
+    shard={"p": list(range(len(PREFIXES)))},
+    covers="template source text as a solver variable: for every continuation of 23 prefixes (each putting the lexer in a different state: content, output, filter, string, tag, liquid tag and its line comments, block comment, {# #} comment, raw, inline comment, bracketed path, range, interpolated string, whitespace-controlled tag, assign, nested line statement, case/when, dotted path, render, float, ## comment) Environment.from_string + render raise only LiquidError, renderable, with a position inside the source",
+    bounds="suffix over { } % # a ' \" | . [ - space LF 1 with len <= 2 (thorough: 10-character alphabet, len <= 3); every compiled pattern of the lexer is replaced by a pure-Python stand-in validated exhaustively against the real pattern on short strings at import (the condition fails if validation fails)",
+    stubs=("all 13 compiled lexer patterns := pure-Python stand-ins (harness/pymatch.py), validated against the real patterns at import",),
+    grid=lambda: [(p, s, 9, SRC_ALPHA) for p in range(len(PREFIXES)) for s in ("", "}}", "%}", " }", "'", "|a", "a}", "#}", "\n%}", "1}}", "[a", "..", "{{", "{%")],
+)
+def d_source_symbolic(p: int, suffix: str, N: int, ALPHA: str) -> bool:
+    if _STANDIN_VALIDATION is not None:
+        return False
+    return source_outcome(PREFIXES[p] + suffix)
